@@ -337,6 +337,9 @@ class P(object):
             parts.append(cs + ('*' + ms if ms else ''))
         return ' + '.join(parts)
 
+    def __format__(self, spec):
+        return self.text()
+
     def __repr__(self):
         s = self.text()
         return 'P(' + (s if len(s) < 200 else s[:200] + '...') + ')'
